@@ -298,6 +298,13 @@ class SymInt(object):
     def __reduce__(s):
         raise Inconclusive('pickling a SymInt')
 
+    # immutable: copies are the object itself (copy.deepcopy of containers holding proxies)
+    def __copy__(s):
+        return s
+
+    def __deepcopy__(s, memo):
+        return s
+
 
 def mk(n):
     """SymInt, or a plain int when the node is a constant"""
